@@ -379,6 +379,19 @@ def run(rep):
         stale = [show(v)[:80] for _c, v in pq.split_where(inl) if pq.mentions(v, lambda x: pq.call_named(x, "attr:_idxinlets") and x[2] == (('sym', 'self'),))]
         rep.check(not stale, "R06.c", "gis/grid.py", "delineate_area", "inlets handed to the kernel come from this call's argument (no inlet when none is given)",
                   f"the kernel can receive the inlets stored by an earlier call: {stale[0] if stale else ''}", line=s.call.lineno, firm=True)
+        # "no inlet" is decided by the absence of the argument (None, or zero length), never by the VALUES given: cell 0 is a cell
+        byvalue = []
+        for c_, v in pq.split_where(inl):
+            if pq.mentions(v, lambda x: x == ('sym', 'idxinlets')):
+                continue            # the caller's inlets, converted
+            for cnd, t_ in c_:
+                for sub in pq.find(cnd, lambda x: x[0] == 'call' and x[1] in ("any", "all", "sum", "max", "min", "nonzero", "count_nonzero", ".any", ".all", ".sum", "py.any", "py.all", "py.sum", "py.bool")
+                                   and pq.mentions(x, lambda y: y == ('sym', 'idxinlets'))):
+                    byvalue.append(show(sub)[:60])
+                if cnd == ('sym', 'idxinlets') or cnd == ('not', ('sym', 'idxinlets')):
+                    byvalue.append("truth value of idxinlets")
+        rep.check(not byvalue, "R06.c", "gis/grid.py", "delineate_area", "the kernel gets no inlet only when none is given (None / zero length), not depending on the inlet values",
+                  f"the empty inlet list is selected by {sorted(set(byvalue))[:2]}: the inlet set {{0}} (top-left cell) is dropped silently", line=s.call.lineno, firm=True)
     okflt = _filters_nonneg(f, ast.unparse(s.args["idxcells_area"][0]) if "idxcells_area" in s.args else None)
     rep.check(okflt, "R06.b", "gis/grid.py", "delineate_area", "area = cells with a non-negative number (the -1 filling is dropped)", "", line=f.lineno)
     params = {a.arg for a in f.args.args}
